@@ -21,8 +21,11 @@ LEVEL = "model_checking"
 STEPS = ["prox", "inexact_abs", "inexact_rel", "els0", "els1", "els2", "lmo", "eps_sub", "iprox1", "iprox2", "iprox3", "breg_grad", "breg_prox"]
 SIZES = [0, 0.5, 1, 2]
 FUNCS = ["fd", "fn", "sum", "sum_eval"]
+FUNCS_THOROUGH = FUNCS + ["weighted", "nested", "zero"]
+SIZES_THOROUGH = [0, 0.5, 1, 2, 3.5, 0.1]
 STARTS = ["leaf", "combo", "returned"]
 PRE = ["none", "prox", "grad"]
+PRE_THOROUGH = PRE + ["prox+grad", "grad+prox", "els", "iprox1"]
 
 
 class World(object):
@@ -43,15 +46,33 @@ class World(object):
             self.f = self.fd; self.terms = []
         elif func == "fn":
             self.f = self.fn
+        elif func == "weighted":
+            self.f = 2 * self.fd + 0.5 * self.fn
+            self.f.set_name("F")
+            self.terms = [(self.fd, 2), (self.fn, 0.5)]
+        elif func == "nested":
+            self.f = (self.fd + self.fn) + self.fd
+            self.f.set_name("F")
+            self.terms = [(self.fd, 2), (self.fn, 1)]
+        elif func == "zero":
+            self.f = self.fd + 0 * self.fn
+            self.f.set_name("F")
+            self.terms = [(self.fd, 1)]
         else:
             self.f = self.fd + self.fn
             self.f.set_name("F")
             self.terms = [(self.fd, 1), (self.fn, 1)]
         x0 = self.a
-        if pre == "prox":
-            x0, _, _ = proximal_step(self.a, self.f, 1)
-        elif pre == "grad":
-            x0 = self.a - 0.5 * self.f.gradient(self.a)
+        from PEPit.primitive_steps import exact_linesearch_step, inexact_proximal_step
+        for pstep in ([] if pre == "none" else pre.split("+")):
+            if pstep == "prox":
+                x0, _, _ = proximal_step(x0, self.f, 1)
+            elif pstep == "grad":
+                x0 = x0 - 0.5 * self.f.gradient(x0)
+            elif pstep == "els":
+                x0, _, _ = exact_linesearch_step(x0, self.f, [self.b])
+            elif pstep == "iprox1":
+                x0 = inexact_proximal_step(x0, self.f, 1.5, opt="PD_gapI")[0]
         if start == "leaf":
             if pre != "none":
                 self.ok = False
@@ -283,6 +304,12 @@ def judge(step, size, func, start, pre):
             probs.append(("%s:lmi-added" % step, "an LMI was added to %s" % fn.get_name()))
     if w.terms and f is w.f:
         for (xc, gc, vc) in expected_samples[id(f)]:
+            # degenerate re-declaration: the step's new point coincides with a point where every term is differentiable
+            # and was already evaluated (e.g. a proximal step of size 0 from an evaluated point): the terms' gradients are
+            # already fixed there, the library records the declared sample on the sum only.  Outside what C08 states
+            # (C07's business); counted, not judged.
+            if all(t.reuse_gradient and any(R.close(cp(s_[0]), xc, 0) for s_ in before["points"][id(t)]) for t, _ in w.terms):
+                continue
             tot_g, tot_v, ok = {}, {}, True
             for t, wt in w.terms:
                 at = [s_ for s_ in after["points"][id(t)] if R.close(cp(s_[0]), xc, 0)]
@@ -305,12 +332,17 @@ def judge(step, size, func, start, pre):
     return out, "checked"
 
 
+def _rz(d):
+    """order-free form of a canonical dict with coefficients rounded to 12 significant digits (float rounding of e.g. 0.1**2)"""
+    return tuple(sorted((repr(k), float("%.12g" % float(v))) for k, v in d.items() if abs(float(v)) > 1e-15))
+
+
 def _fz3(t):
-    return repr((R.freeze(t[0]), R.freeze(t[1]), R.freeze(t[2])))
+    return repr((_rz(t[0]), _rz(t[1]), _rz(t[2])))
 
 
 def _fzc(t):
-    return repr((t[0], R.freeze(t[1])))
+    return repr((t[0], _rz(t[1])))
 
 
 # ---- concrete side: the reference descriptions hold on real operations --------------------------------------------------
@@ -414,7 +446,7 @@ def concrete_cases():
 def shards(tier):
     out = [dict(kind="concrete")]
     for step in STEPS:
-        for func in (FUNCS if tier != "quick" else FUNCS):
+        for func in (FUNCS_THOROUGH if tier != "quick" else FUNCS):
             out.append(dict(kind="symbolic", step=step, func=func))
     return out
 
@@ -431,10 +463,10 @@ def run_shard(shard, tier):
                 raise RuntimeError("reference description of '%s' does not hold on the real operation (%.3g): harness error" % (label, val))
         return dict(evaluations=ev, states=ev, transitions=ev, nontrivial=ev, outcomes=outcomes, violations=[], samples=[dict(kind="concrete", cases=ev)], extra={})
     step, func = shard["step"], shard["func"]
-    sizes = SIZES
+    sizes = SIZES if tier == "quick" else SIZES_THOROUGH
     for size in sizes:
         for start in STARTS:
-            for pre in PRE:
+            for pre in (PRE if tier == "quick" else PRE_THOROUGH):
                 probs, label = judge(step, size, func, start, pre)
                 if probs is None:
                     continue
